@@ -83,12 +83,14 @@ impl Case {
 
 /// A copy of `data` whose first byte sits at an address congruent to
 /// `align` modulo 64. No slack is read by the crate: the slice is exact.
+#[cfg(not(miri))]
 pub struct Placed {
     buf: Vec<u8>,
     off: usize,
     len: usize,
 }
 
+#[cfg(not(miri))]
 impl Placed {
     pub fn new(data: &[u8], align: usize) -> Placed {
         let mut buf = vec![0xA5u8; data.len() + 128];
@@ -99,6 +101,46 @@ impl Placed {
     }
     pub fn get(&self) -> &[u8] {
         &self.buf[self.off..self.off + self.len]
+    }
+}
+
+/// Under Miri the allocation is the bounds oracle: the data sits at the very end of a 64-aligned
+/// allocation of exactly `align + len` bytes (a read past the slice leaves the allocation), or - one
+/// case in three - at its very start (a read in front of the slice does).
+#[cfg(miri)]
+pub struct Placed {
+    ptr: *mut u8,
+    layout: core::alloc::Layout,
+    off: usize,
+    len: usize,
+}
+
+#[cfg(miri)]
+impl Placed {
+    pub fn new(data: &[u8], align: usize) -> Placed {
+        extern crate alloc;
+        let a = align % 64;
+        let start_exact = (data.len() + align) % 3 == 0;
+        let (off, size) = if start_exact { (0, data.len() + 64) } else { (a, a + data.len()) };
+        let layout = core::alloc::Layout::from_size_align(size.max(1), 64).unwrap();
+        unsafe {
+            let ptr = alloc::alloc::alloc(layout);
+            assert!(!ptr.is_null());
+            core::ptr::write_bytes(ptr, 0xA5, size.max(1));
+            core::ptr::copy_nonoverlapping(data.as_ptr(), ptr.add(off), data.len());
+            Placed { ptr, layout, off, len: data.len() }
+        }
+    }
+    pub fn get(&self) -> &[u8] {
+        unsafe { core::slice::from_raw_parts(self.ptr.add(self.off), self.len) }
+    }
+}
+
+#[cfg(miri)]
+impl Drop for Placed {
+    fn drop(&mut self) {
+        extern crate alloc;
+        unsafe { alloc::alloc::dealloc(self.ptr, self.layout) }
     }
 }
 
